@@ -848,4 +848,51 @@ structure WellFormed (units : List (UnitHdr × List Entry)) : Prop where
   inside : ∀ ue, ue ∈ units → ∀ e, e ∈ ue.2 → ue.1.inBounds e.off = true
 
 
+/-- per unit: what `convertUnits` returns when it succeeds -/
+theorem convertUnits_links (ids : List Off) : ∀ (units : List (UnitHdr × List Entry))
+    (ras : List (List AttrRef)) (us : List (List (Off × Option Off))),
+    (∀ ue, ue ∈ units → (∀ e, e ∈ ue.2 → 0 < e.depth) ∧
+      (∀ ep, ep ∈ withParents [] ue.2 → ids.contains (ue.1.base + ep.1.off) = true →
+        ∀ p, ep.2 = some p → ids.contains (ue.1.base + p.off) = true)) →
+    convertUnits ids units ras = .ok us →
+    us = units.map (fun ue => filterLinks ids ue.1 [] ue.2) := by
+  intro units
+  induction units with
+  | nil => intro ras us _ h; simp only [convertUnits, Except.ok.injEq] at h; simp [← h]
+  | cons ue units ih =>
+    intro ras us hP h
+    obtain ⟨u, es⟩ := ue
+    rw [convertUnits] at h
+    cases hr : firstErr ((ras.headD []).map (convAttr ids u)) with
+    | some e => rw [hr] at h; cases h
+    | none =>
+      rw [hr] at h
+      simp only at h
+      cases hc : convertEntries ids u (if es.isEmpty then [] else [(0, u.rootOff)]) es [] with
+      | error e => rw [hc] at h; cases h
+      | ok r =>
+        rw [hc] at h
+        simp only at h
+        cases hrest : convertUnits ids units ras.tail with
+        | error e => rw [hrest] at h; cases h
+        | ok rs =>
+          rw [hrest] at h
+          simp only [Except.ok.injEq] at h
+          have h1 := ih ras.tail rs (fun ue hue => hP ue (List.mem_cons_of_mem _ hue)) hrest
+          have h2 : r = filterLinks ids u [] es := by
+            cases es with
+            | nil =>
+              simp only [convertEntries, Except.ok.injEq] at hc
+              simp [← hc, filterLinks, withParents]
+            | cons e es' =>
+              simp only [List.isEmpty_cons, Bool.false_eq_true, if_false] at hc
+              obtain ⟨hd, hcl⟩ := hP (u, e :: es') List.mem_cons_self
+              have h1' := convertEntries_links ids u (e :: es') _ [] r hc
+              have h2' := convertLinks_eq ids u (e :: es') [] List.Pairwise.nil hd hcl
+              simp only [convStack, List.filter_nil, List.map_nil, List.nil_append] at h2'
+              rw [h1', h2']; rfl
+          rw [← h, h1, h2]; rfl
+
+
+
 end Gimli.Filter
